@@ -76,7 +76,7 @@ MANIFEST = {
 }
 
 SIMPLE = ['a', 'b', 'c', 'd', 'e', 'f', 'g']
-EXOTIC = ['foo', 'foo-bar', 'bar', 'bar+1', 'baz', 'q%x', 'foo_2', 'x@y',
+EXOTIC = ['foo', 'foo-bar', 'bar', 'bar+1', 'xbar', 'q%x', 'foo_2', 'x@y',
           'Foo', '1st', '_u']
 ALT = {'succeeded': 'succeed', 'failed': 'fail', 'started': 'start',
        'submitted': 'submit', 'submit-failed': 'submit-fail',
@@ -125,7 +125,7 @@ def _allowed(p, exotic):
     if p['cu']:
         out += [('x', p['cu'] == 2)]
     if exotic and p['cu2']:
-        out += [('x-1', p['cu2'] == 2)]
+        out += [('start-1', p['cu2'] == 2)]
     return out
 
 
@@ -142,6 +142,16 @@ def _atom(draw, name, allowed, pos, offset=False, nondefault=False):
     if q in ALT and draw(st.booleans()):
         q = ALT[q]
     return {'n': name, 'o': '[-P1]' if offset else '', 'q': q, 'opt': opt}
+
+
+@st.composite
+def _respell(draw, atom):
+    """The same atom, qualifier in the other (or the same) spelling."""
+    a = dict(atom)
+    inv = {v: k for k, v in ALT.items()}
+    if draw(st.booleans()):
+        a['q'] = ALT.get(a['q'], inv.get(a['q'], a['q']))
+    return a
 
 
 @st.composite
@@ -184,6 +194,12 @@ def _chain(draw, names, allowed, exotic):
                 j = draw(st.integers(0, n - 1))
                 atoms.append(draw(_atom(names[j], allowed[j], 'first',
                                         offset=True)))
+                if draw(st.integers(0, 2)) == 1:
+                    # the same offset task again: same output in the other
+                    # spelling, the identical text, or another output
+                    atoms.append(draw(st.one_of(
+                        _atom(names[j], allowed[j], 'first', offset=True),
+                        _respell(atoms[-1]))))
             if draw(st.integers(0, 3)) == 2:
                 i = grp[draw(st.integers(0, len(grp) - 1))]
                 if len(allowed[i]) > 1:
@@ -735,9 +751,27 @@ def normalise(gp):
 
 
 def _overlap_kind(lhs_nodes):
-    """Root-cause class for a garbled expression."""
+    """Root-cause class for a garbled expression (first that applies)."""
+    fin = ('finish', 'finished')
     for node in lhs_nodes:
         atoms = [a for a in _atoms(node) if 'n' in a]
+        # ':finish' of a task whose name ends another task's name that also
+        # has ':finish' (str.replace of "a:finished" inside "aa:finished")
+        for a in atoms:
+            for b in atoms:
+                if (a.get('q') in fin and b.get('q') in fin
+                        and a['n'] != b['n'] and b['n'].endswith(a['n'])
+                        and a.get('o', '') == b.get('o', '')):
+                    return 'finish-name-suffix'
+        # alternative qualifier spelling that is a prefix of another
+        # qualifier of the same task up to a '-'
+        for a in atoms:
+            for b in atoms:
+                if a['n'] == b['n'] and a.get('o', '') == b.get('o', ''):
+                    qa, qb = a.get('q', ''), b.get('q', '')
+                    if qa and qb and qa != qb and qb.startswith(qa) and (
+                            not re.match(r'\w', qb[len(qa)])):
+                        return 'qualifier-overlap'
         names = {a['n'] for a in atoms}
         for n1 in names:
             for n2 in names:
@@ -747,13 +781,14 @@ def _overlap_kind(lhs_nodes):
                         and not re.match(r'\w', n2[-len(n1) - 1]))
                 ):
                     return 'name-overlap'
+        # the same offset trigger written twice / in both spellings
+        seen = set()
         for a in atoms:
-            for b in atoms:
-                if a['n'] == b['n'] and a.get('o', '') == b.get('o', ''):
-                    qa, qb = a.get('q', ''), b.get('q', '')
-                    if qa and qb and qa != qb and qb.startswith(qa) and (
-                            not re.match(r'\w', qb[len(qa)])):
-                        return 'qualifier-overlap'
+            if a.get('o'):
+                k = (a['n'], a['o'], G.std(a.get('q', '')))
+                if k in seen:
+                    return 'repeated-offset-trigger'
+                seen.add(k)
     return 'other'
 
 
